@@ -11,8 +11,8 @@ from vt.monitors import C12Items
 FUNCTIONS = ["orquesta.conducting.WorkflowConductor._evaluate_task_actions (E1, concurrency unbounded)", "machines.TaskStateMachine item events, update_task_state, get_next_tasks (E2c)"]
 
 
-def items(ch, ctx, n, conc=None, conc_expr=False, sibling=False, steps=6, twin=False, dups=False, **pol):
-    wf = defs.items_def(n, conc, conc_expr, sibling, dups)
+def items(ch, ctx, n=None, conc=None, conc_expr=False, sibling=False, steps=6, twin=False, dups=False, did=None, **pol):
+    wf = defs.get(did) if did else defs.items_def(n, conc, conc_expr, sibling, dups)
     env = Env(ch, wf, "C12", monitors=[C12Items()], policy=Policy(steps=steps, **pol))
     env.counters = ctx["counters"]
     try:
@@ -75,5 +75,9 @@ def obligations(tier):
         obs.extend(control_slices(o, 4))
     o = ob("C12", "e2c.sib.n3.k2", "vt.harness.C12:items", {"n": 3, "conc": 2, "sibling": True, "steps": 6, "control": "either"}, timeout=1200)
     obs.extend(control_slices(o, 7))
+    # the with-items task is started once per loop iteration, each time on a new route, while the previous one still runs
+    o = ob("C12", "e2c.loop.D29w", "vt.harness.C12:items", {"did": "D29w", "steps": 7, "statuses": ["succeeded"]}, timeout=1200)
+    o["antecedents"] = ["c12_item_offers", "c12_task_completed"]
+    obs.append(o)
     obs.append(ob("C12", "twin.n3", "vt.harness.C12:items", {"n": 3, "conc": 2, "steps": 5, "twin": True}, timeout=60))
     return obs
